@@ -853,7 +853,7 @@ class FSET4(AbstractOperation):
     """
 
     P = (U4,)
-    BITV = "0011 110a 0110 aaaa"
+    BITV = "0011 1100 0110 aaaa"
 
     def execute(self, vm):
         value = self.args[0]
